@@ -73,7 +73,7 @@ func c06Opts(rng *rand.Rand, engine string, n int, rocksWAL bool) ClusterOpts {
 }
 
 func runC06(c *vc.Ctx) error {
-	c.Ev.Rule = "case = (crash point, k-th hit, optional delay before the crash, engine pebble|mem, use_rocks_wal, config single voter | 3 voters with victim leader/follower, stage: serving process | restarting process after a first kill = double crash) or SIGKILL from outside after n acknowledged writes; plus fixed families in every run: restart before the first snapshot exists (SnapCount > history; external kill and early crash points; single voter and 3-voter victim) and a solo run of batchable writes in the WAL tail behind the newest snapshot followed by a kill of the idle node; workload = 4 sequential single-writer-per-key clients (RPUSH+INCR, HSET+SADD, ZADD+SETEX, PFADD on two HyperLogLog keys, batchable commands SET/HMSET on one hash/SETEX/DEL; unique values, 100..200 writes each; HLL keys are judged by PFCOUNT against reference keys filled after the restart with the admissible element sets, SnapCount 10..30, SnapCatchup 3..5, KeepBackup 2, 8 KiB WAL segments so that snapshots, compactions, checkpoint purges and WAL cuts are crossed); k ranges over 1,2,3,5,8,... up to the hits counted in a dry run of the same script; after the crash the node is restarted on its directory, settle is observed, the full logical dump is compared with the admissible states (acked writes in order, unknown-outcome writes at most once, nothing else) and, with 3 voters, with the other replicas. non-trivial = the crash actually fired (failpoint line logged / external kill done), the node was restarted and compared; distinct by (point,k,delay,engine,config,rockswal,role,stage)"
+	c.Ev.Rule = "case = (crash point, k-th hit, optional delay before the crash, engine pebble|mem, use_rocks_wal, optimized_fsync on for a fixed third of the cases, config single voter | 3 voters with victim leader/follower, stage: serving process | restarting process after a first kill = double crash) or SIGKILL from outside after n acknowledged writes; plus fixed families in every run: restart before the first snapshot exists (SnapCount > history; external kill and early crash points; single voter and 3-voter victim) and a solo run of batchable writes in the WAL tail behind the newest snapshot followed by a kill of the idle node; workload = 4 sequential single-writer-per-key clients (RPUSH+INCR, HSET+SADD, ZADD+SETEX, PFADD on two HyperLogLog keys, batchable commands SET/HMSET on one hash/SETEX/DEL; unique values, 100..200 writes each; HLL keys are judged by PFCOUNT against reference keys filled after the restart with the admissible element sets, SnapCount 10..30, SnapCatchup 3..5, KeepBackup 2, 8 KiB WAL segments so that snapshots, compactions, checkpoint purges and WAL cuts are crossed); k ranges over 1,2,3,5,8,... up to the hits counted in a dry run of the same script; after the crash the node is restarted on its directory, settle is observed, the full logical dump is compared with the admissible states (acked writes in order, unknown-outcome writes at most once, nothing else) and, with 3 voters, with the other replicas. non-trivial = the crash actually fired (failpoint line logged / external kill done), the node was restarted and compared; distinct by (point,k,delay,engine,config,rockswal,role,stage)"
 	c.Ev.Assume("kill -9 keeps the page cache: the order of persistence steps is decided, fsync placement (power loss) is not")
 	c.Ev.Assume("engines pebble and mem only; the 10-minute WAL/snap file purge timer is not reachable (covered at package level by C05)")
 	c.Ev.Assume("single-voter cases attribute a loss of at most the newest acknowledged write per client to the publish-before-persist window of processReady (signature ack-before-persist/single-voter), whichever crash point fired; losses of any other shape, and every loss with 3 voters, are acked-write-missing/<point>")
@@ -166,7 +166,13 @@ func runC06(c *vc.Ctx) error {
 
 	// ---- case list
 	var cases []*C06Case
-	add := func(cs *C06Case) { cs.Index = len(cases); cases = append(cases, cs) }
+	add := func(cs *C06Case) {
+		cs.Index = len(cases)
+		if cs.Directed == "" && cs.Index%3 == 1 {
+			cs.Opts.OptimizedFsync = true // a fixed third of the generated cases runs with optimized_fsync on
+		}
+		cases = append(cases, cs)
+	}
 	mk := func(rng *rand.Rand, eng string, p string, o c06Option, k int64, delay int, rocksWAL bool) *C06Case {
 		n := 1
 		if o.config == "cluster" {
@@ -220,6 +226,7 @@ func runC06(c *vc.Ctx) error {
 			ks := fibsUpTo(h)
 			cs := mk(rng, eng, "node.raft.afterPublish", c06Option{"single", "", "failpoint", h}, ks[len(ks)/2+rng.Intn(len(ks)-len(ks)/2)], 150, false)
 			cs.Directed = "ack-before-persist"
+			cs.Opts.OptimizedFsync = i%2 == 1
 			add(cs)
 		}
 	}
@@ -234,19 +241,20 @@ func runC06(c *vc.Ctx) error {
 			cfg, role, eng, kind, point string
 			k                           int64
 			snap, writes, tail          int
+			optFsync                    bool
 		}
 		rng := c.Rand(6990)
 		fk := func(lo int) int64 { l := []int64{21, 34, 55, 89}; return l[lo+rng.Intn(len(l)-lo)] }
 		fixed := []fx{
-			{"single", "", "pebble", "extkill", "", 0, 100000, 30, 0},
-			{"single", "", "pebble", "failpoint", "node.apply.afterEntry", fk(0), 100000, 30, 0},
-			{"single", "", "mem", "extkill", "", 0, 100000, 30, 0},
-			{"cluster", "follower", "pebble", "extkill", "", 0, 100000, 30, 0},
-			{"cluster", "leader", "pebble", "failpoint", "node.raft.beforeAdvance", fk(1), 100000, 30, 0},
-			{"single", "", "pebble", "tailkill", "", 0, 100000, 24, 18},
-			{"single", "", "pebble", "tailkill", "", 0, 50, 34, 24},
-			{"single", "", "mem", "tailkill", "", 0, 50, 34, 24},
-			{"cluster", "follower", "pebble", "tailkill", "", 0, 50, 34, 24},
+			{"single", "", "pebble", "extkill", "", 0, 100000, 30, 0, true},
+			{"single", "", "pebble", "failpoint", "node.apply.afterEntry", fk(0), 100000, 30, 0, false},
+			{"single", "", "mem", "extkill", "", 0, 100000, 30, 0, true},
+			{"cluster", "follower", "pebble", "extkill", "", 0, 100000, 30, 0, false},
+			{"cluster", "leader", "pebble", "failpoint", "node.raft.beforeAdvance", fk(1), 100000, 30, 0, true},
+			{"single", "", "pebble", "tailkill", "", 0, 100000, 24, 18, false},
+			{"single", "", "pebble", "tailkill", "", 0, 50, 34, 24, false},
+			{"single", "", "mem", "tailkill", "", 0, 50, 34, 24, true},
+			{"cluster", "follower", "pebble", "tailkill", "", 0, 50, 34, 24, true},
 		}
 		if c.Thorough() {
 			for _, f := range append([]fx(nil), fixed...) {
@@ -265,6 +273,7 @@ func runC06(c *vc.Ctx) error {
 			}
 			cs := &C06Case{Seed: rng.Int63(), Config: f.cfg, Opts: c06Opts(rng, f.eng, n, false), Writes: f.writes, Kind: f.kind, Point: f.point, K: f.k,
 				VictimRole: f.role, KillAfter: 60 + rng.Intn(60), MoreAcked: 30, TailRun: f.tail, Directed: "fixed-family"}
+			cs.Opts.OptimizedFsync = f.optFsync
 			cs.Opts.SnapCount = f.snap
 			cs.Opts.SnapCatchup = 5
 			add(cs)
